@@ -20,6 +20,7 @@ struct Plan {
     int cls = 'L';
     uint64_t seed = 0;
     int max_help = 40;          // helper operations the coordinator may add
+    bool focus_page_switch = false;   // delay mostly at the page-switch hook (under page_mutex, after the pusher's turn check)
     int total() const { int n = 0; for (int t = 0; t < nthreads; t++) n += (int)ops[t].size(); return n; }
 };
 
